@@ -500,6 +500,8 @@ class NodeTr:
                 t, ty = self.ex(e.args[0], env, binds)
                 if ty == ("opt", "md"):            # an entry of self.metadata: iterating None raises
                     t, ty = self.bind(binds, "lift %s" % t, True), "md"
+                if ty == "nil":                    # the literal []: retaining / releasing nothing
+                    t, ty = "[]", "md"
                 if ty != "md":
                     self.err("%s of a %s" % (name, ty), e)
                 self.bind(binds, "%s %s" % ("retain_refs" if name == "_retain_refs" else "release_refs", t), True, "u")
